@@ -4,17 +4,32 @@ import json
 from . import core
 
 LEVEL_TEXT = (
-    "Lean 4 theorems: the three substitution stages (args, inputs, fees) commute syntactically on every expression and transaction, so all six orders give the identical template. Clauses involving reduce and the compiler pass are decided per generated template by running every stage permutation x every reduce placement on the real crates and comparing canonical results (spec oracle on the implementation), with the model's apply/reduce/compiler-pass tied by correspondence on the same cases."
+    "Lean 4 theorems over the reducer model: (1) the three substitution stages (args, inputs, fees) commute "
+    "syntactically on every expression and transaction, so all six orders give the identical template; (2) reduction "
+    "is idempotent: for every well-formed expression (payloads of substituted parameters and resolved UTxOs are values) "
+    "reduce lands in a normal form - whatever the fuel - a normal form is a fixed point of any further reduction, and "
+    "with the fuel reduce supplies it reduces to itself, so reduce(reduce(e)) = reduce(e); (3) the hypothesis is what "
+    "the pipeline maintains: each substitution stage given values and reduce itself keep templates well-formed, so "
+    "interleaving reductions anywhere in a schedule changes nothing that a later reduction would not also produce; "
+    "(4) without the hypothesis the law fails (proved witness Set(Add(1,2))). Clauses involving the compiler pass and "
+    "the equality of final templates across schedules are decided per generated template by running every stage "
+    "permutation x every reduce placement on the real crates and comparing canonical results, with the model's "
+    "apply/reduce/compiler-pass tied by correspondence on the same cases and the well-formedness hypothesis evaluated "
+    "on every template and applied template."
 )
 LEVEL_NOTE = (
-    'Partial: reduce idempotence and schedule-independence with interleaved reductions are explored exhaustively per case (up to 384 schedules) but not yet theorems. Known finding C07-query-error-masked is reported, not suppressed silently.'
+    "Partial: that two schedules with different reduce placements end in the SAME template (confluence of reduce with "
+    "the substitutions, and the compiler pass) is explored exhaustively per case (up to 384 schedules), not a theorem. "
+    "Known finding C07-query-error-masked is reported, not suppressed silently."
 )
 PROP = "C07"
-LEAN_TARGETS = ["Tx3Proofs.C07"]
-AUDIT_MODULES = ["Tx3Proofs.C07"]
+LEAN_TARGETS = ["Tx3Proofs.C07", "Tx3Proofs.C07Reduce"]
+AUDIT_MODULES = ["Tx3Proofs.C07", "Tx3Proofs.C07Reduce"]
 THEOREMS = [
     "Tx3.Expr.C07_args_fees", "Tx3.Expr.C07_args_inputs", "Tx3.Expr.C07_fees_inputs",
     "Tx3.Stage.commute_expr", "Tx3.C07_apply_commute",
+    "Tx3.reduce_nf", "Tx3.nf_fix", "Tx3.nf_fix_fuel", "Tx3.C07_reduce_idempotent", "Tx3.C07_reduce_stable",
+    "Tx3.C07_reduce_not_idempotent_without_WF", "Tx3.C07_stages_preserve_WF", "Tx3.C07_reduce_preserves_WF",
 ]
 
 RULE = (
@@ -27,7 +42,7 @@ RULE = (
 )
 
 ASSUMPTIONS = [
-    "proved: the three substitution stages commute syntactically on every expression and transaction (all 6 orders give the identical tree); NOT yet proved: clauses involving reduce and the compiler pass - decided per case by exhaustive schedule exploration on the real crates (spec oracle) and by the model correspondence",
+    "proved: the three substitution stages commute syntactically (all 6 orders give the identical tree); reduce is idempotent on well-formed templates and well-formedness is preserved by every stage; NOT proved: equality of final templates across schedules that place reduce differently, and the compiler pass - decided per case by exhaustive schedule exploration on the real crates (spec oracle) and by the model correspondence",
     "a schedule is admissible when every compiler op's operands are free of unresolved parameters at the moment the compiler stage runs",
     "canonical form sorts asset lists (their order comes out of a HashMap)",
 ]
